@@ -49,7 +49,10 @@ RULE_ADDED = (
               'ables. '
               ' '
               "Round 15: a second attestation later on from the first one's file, the device ha"
-              'ving moved on; authorized-signer iterations over the whole 16-bit range. ')
+              'ving moved on; authorized-signer iterations over the whole 16-bit range. '
+              ' '
+              'Round 16: long auth data of little variety (one byte repeated, short patterns), '
+              'envelope pages of 79 bytes. ')
 RULE = RULE + " " + RULE_ADDED.strip()
 ASSUMPTIONS = [
     "the genuine-device models in pv/simdev/genuine.py (endorsement scheme two: signatures by "
